@@ -6,6 +6,7 @@ from .. import cats, docgen as D, kdoc as K, spine as S, xform as X
 from ..common import Bad, Result
 
 ID = 'C04'
+SHARDS_QUICK = 4
 TC = kp.TokenCategory
 ENCS4 = ['kern', 'ekern', 'bkern', 'bekern']
 ENCS6 = ENCS4 + ['akern', 'aekern']
@@ -140,7 +141,7 @@ def check(case):
 
 
 def run(ctx):
-    n = 150 if ctx.quick else 1200
+    n = 50 if ctx.quick else 1200
     ctx.run_hypothesis(cases('full'), check, max_examples=n, label='full')
     ctx.run_hypothesis(cases('agnostic'), check, max_examples=n, salt=1, label='agnostic')
 
